@@ -60,6 +60,30 @@ mod verif_standins {
         fn try_fill_bytes(&mut self, dest: &mut [u8]) -> Result<(), rand::Error> { self.fill_bytes(dest); Ok(()) }
     }
     impl rand::CryptoRng for ZeroRng {}
+    /// the documented patterns inside ONE signature proof: equal slots and publicly shifted slots share a commitment scalar;
+    /// the prover builds the proof (no refusal, no panic) and the verifier accepts it
+    fn check_patterns<const N: usize>() {
+        let mut rng = rng();
+        let kp = KeyPair::<N>::new(&mut rng);
+        let pk = kp.public_key();
+        for (a, d) in [(Scalar::from(7), Scalar::zero()), (Scalar::zero(), Scalar::zero()), (-Scalar::one(), Scalar::zero()), (Scalar::from(9), Scalar::from(4))] {
+            let mut m = [Scalar::from(3); N];
+            m[0] = a; m[N - 1] = a + d;
+            let msg = Message::new(m);
+            let sig = msg.sign(&mut rng, &kp);
+            let s = Scalar::from(17);
+            let mut given = [None; N];
+            given[0] = Some(s); given[N - 1] = Some(s);
+            let b = SignatureProofBuilder::generate_proof_commitments(&mut rng, msg.clone(), sig, &given, pk);
+            let c = ChallengeBuilder::new().with(&b).finish();
+            let p = b.generate_proof_response(c);
+            let z = p.conjunction_response_scalars();
+            assert!(z[N - 1] == z[0] + c.to_scalar() * d, "STANDIN sproof: slots sharing a commitment scalar do not differ by c * (difference of the values)");
+            assert!(p.verify_knowledge_of_signature(pk, c), "STANDIN sproof.verify_knowledge_of_signature: honest proof using the equality / public-addition pattern inside one proof rejected, N={}", N);
+        }
+    }
+    #[test] fn standin_sproof_patterns() { check_patterns::<2>(); check_patterns::<5>(); }
+
     #[test] fn standin_sproof_verify() { check::<1>(); check::<2>(); check::<5>(); }
 }
 
